@@ -40,6 +40,7 @@ type Ctx struct {
 	abw map[fieldKey]bool
 	focus []string
 	tonl01Kinds map[string]bool
+	pkgoKinds map[string]map[string]bool
 }
 
 type Floor struct {
